@@ -14,7 +14,8 @@ import os
 import shutil
 import traceback
 
-from . import h5snap
+import h5py
+
 from . import writethrough_impl as W
 from .pool import scratch
 from .tlc import MachineryError
@@ -121,7 +122,12 @@ def build_template(target, directory) -> Template:  # pylint: disable=too-many-b
                 except W.Skip as exc:
                     tpl.skipped[attr] = str(exc)
                     continue
-                v0 = copy.deepcopy(cur) if not W._is_entity(cur) else W.Ref(cur.uid)  # pylint: disable=protected-access
+                if W._is_entity(cur):  # pylint: disable=protected-access
+                    v0 = W.Ref(cur.uid)
+                elif hasattr(cur, "getpixel"):
+                    v0 = cur.copy()  # PIL image opened lazily on a buffer
+                else:
+                    v0 = copy.deepcopy(cur)
                 if cur is None and base is not None:
                     tpl.notes[attr] = "the initial value assigned before the first close reads back as None"
                 tpl.values[attr] = [v0, vals[0], vals[1]]
@@ -170,6 +176,7 @@ def census(target):
                 "attrs": [], "skipped": {}, "notes": {}}
     return {"target": W.target_name(target), "error": tpl.error, "attrs": sorted(tpl.values),
             "skipped": tpl.skipped, "notes": tpl.notes,
+            "values": {a: [W.short(x, 60) for x in v] for a, v in tpl.values.items()},
             "two_valued": sorted(a for a, v in tpl.values.items() if W.same(W.canon(v[0]), W.canon(v[2])))}
 
 
@@ -197,6 +204,8 @@ class Run:  # pylint: disable=too-many-instance-attributes
         self.ws = None
         self.ent = None
         self.values = [self.tpl.values[a] for a in self.attrs]
+        cls = self.target["cls"]
+        self.cv = [[W.canon(W.normalise(cls, a, v)) for v in self.tpl.values[a]] for a in self.attrs]
         self.raw_seen = [dict() for _ in self.attrs]
 
     # ------------------------------------------------------------------ helpers
@@ -208,7 +217,11 @@ class Run:  # pylint: disable=too-many-instance-attributes
         self.viol.append({"signature": sig, "summary": f"{self.tname} {self.attrs}: {msg}", "case": self.case()})
 
     def pair(self, s):
-        return f"{self.target['cls']}.{self.attrs[s]}"
+        """name of the mechanism: the class that DEFINES the setter (one setter = one signature, however many classes
+        inherit it) + the kind of stored thing"""
+        attr = self.attrs[s]
+        definer = self.target["defined_in"].get(attr, self.target["cls"]).split(".")[-1]
+        return f"{definer}.{attr}@{self.target['kind']}"
 
     def open_ws(self):
         self.ws = self.Workspace(self.work, mode="r+")
@@ -229,14 +242,15 @@ class Run:  # pylint: disable=too-many-instance-attributes
             live = []
             for a in self.attrs:
                 ok, v = _try_get(self.ent, a)
-                live.append(copy.deepcopy(v) if ok and not W._is_entity(v) else (v if ok else ("getter-raises", type(v).__name__, str(v)[:80])))  # pylint: disable=protected-access
+                live.append(W.canon(W.normalise(self.target["cls"], a, v)) if ok else ("getter-raises", type(v).__name__, str(v)[:80]))
             self.ws.geoh5.flush()
             shutil.copyfile(self.work, self.copy)
             src = self.copy
-            snap = h5snap.snapshot(self.ws.geoh5)
+            node = self.fx.raw(self.ws.geoh5, self.tpl.type_uid)
         else:
             src = self.work
-            snap = h5snap.snapshot(self.work)
+            with h5py.File(self.work, "r") as fh:
+                node = self.fx.raw(fh, self.tpl.type_uid)
         reader = []
         ws2 = self.Workspace(src, mode="r")
         try:
@@ -246,12 +260,11 @@ class Run:  # pylint: disable=too-many-instance-attributes
                     reader.append(("entity-missing",))
                     continue
                 ok, v = _try_get(ent2, a)
-                reader.append(W.canon(v) if ok else ("getter-raises", type(v).__name__, str(v)[:80]))
+                reader.append(W.canon(W.normalise(self.target["cls"], a, v)) if ok else ("getter-raises", type(v).__name__, str(v)[:80]))
         finally:
             ws2.close()
         self.stats["reader_checked"] += 1
-        node = self.fx.raw(snap, self.tpl.type_uid)
-        return (None if live is None else [W.canon(v) for v in live]), reader, node
+        return live, reader, node
 
     def raw_value(self, node, s):
         """raw content of the place where slot s is stored, or None when there is no direct mapping"""
@@ -268,9 +281,9 @@ class Run:  # pylint: disable=too-many-instance-attributes
     def matches(self, state, live, reader):
         lv, st, _ = state
         for s in range(self.k):
-            if live is not None and not W.same(live[s], W.canon(self.values[s][lv[s]])):
+            if live is not None and not W.same(live[s], self.cv[s][lv[s]]):
                 return False
-            if not W.same(reader[s], W.canon(self.values[s][st[s]])):
+            if not W.same(reader[s], self.cv[s][st[s]]):
                 return False
         return True
 
@@ -278,7 +291,7 @@ class Run:  # pylint: disable=too-many-instance-attributes
         lv, st, _ = state
         out = []
         for s in range(self.k):
-            exp_l, exp_s = W.canon(self.values[s][lv[s]]), W.canon(self.values[s][st[s]])
+            exp_l, exp_s = self.cv[s][lv[s]], self.cv[s][st[s]]
             if live is not None and not W.same(live[s], exp_l):
                 out.append(f"live {self.attrs[s]} = {W.short(live[s], 70)} expected token {lv[s]} = {W.short(exp_l, 70)}")
             if not W.same(reader[s], exp_s):
@@ -286,7 +299,7 @@ class Run:  # pylint: disable=too-many-instance-attributes
         return "; ".join(out)
 
     def tokens_of(self, obs, s):
-        return [t for t in range(3) if W.same(obs, W.canon(self.values[s][t]))]
+        return [t for t in range(3) if W.same(obs, self.cv[s][t])]
 
     # ------------------------------------------------------------------ one behaviour
     def run(self):  # pylint: disable=too-many-branches,too-many-statements,too-many-locals
@@ -307,7 +320,25 @@ class Run:  # pylint: disable=too-many-instance-attributes
             steps = [tuple(x) for x in self.item["path"]]
             i = 0
             extra = 0
-            while i < len(steps):
+            while True:
+                if i >= len(steps):
+                    # adaptive extension: one more assignment tells ForgetsPersist from PersistsBeforeStoring
+                    amb = sorted(q for q, v in pending.items() if len(v) > 1)
+                    if not amb or extra >= 4:
+                        break
+                    amb = amb[0]
+                    if not state[2]:
+                        steps.append(("Open", 0, 0))
+                    def differs(x, y):
+                        return not W.same(self.cv[amb][x], self.cv[amb][y])
+                    nxt = [x for x in (1, 2, 0) if differs(x, state[0][amb])]
+                    if not nxt:
+                        break
+                    # a value different from both the live and the stored one separates all outcomes in one step
+                    best = [x for x in nxt if differs(x, state[1][amb])]
+                    steps.append(("Set", amb + 1, (best or nxt)[0]))
+                    extra += 1
+                    self.stats["extended"] += 1
                 act, a, t = steps[i]
                 i += 1
                 s = a - 1
@@ -365,8 +396,8 @@ class Run:  # pylint: disable=too-many-instance-attributes
                     ideal = [c for c in cands if c[1] == ""][0]
                     what = self.describe(ideal[0], live, reader)
                     own = act in ("Set", "SetSame") and not (
-                        (live is None or W.same(live[s], W.canon(self.values[s][ideal[0][0][s]])))
-                        and W.same(reader[s], W.canon(self.values[s][ideal[0][1][s]])))
+                        (live is None or W.same(live[s], self.cv[s][ideal[0][0][s]]))
+                        and W.same(reader[s], self.cv[s][ideal[0][1][s]]))
                     kind = "assigned" if own else ("frame" if act in ("Set", "SetSame") else "state")
                     self.bad(f"divergence:{kind}:{act}:{self.pair(s) if a else self.tname}",
                              f"step {i} {act}({self.attrs[s] if a else ''}{', token ' + str(t) if act == 'Set' else ''}) after "
@@ -379,7 +410,14 @@ class Run:  # pylint: disable=too-many-instance-attributes
                     chosen = hit[0]
                     tags = {c[1] + (f">{self.attrs[c[2] - 1]}" if c[2] else "") for c in hit}
                     self.stats["dev_steps"] += 1
-                    pending[s] = (pending[s] & tags) if s in pending and (pending[s] & tags) else set(tags)
+                    if s in pending and not pending[s] & tags:
+                        # two different mechanisms on the same attribute in one behaviour: report the first now
+                        self.bad(f"dev:{'|'.join(sorted(pending[s]))}:{self.pair(s)}",
+                                 f"{first_dev[s][1]}({self.attrs[s]}, token {first_dev[s][2]}) at step {first_dev[s][0]} of "
+                                 f"{[list(x) for x in steps]}: {first_dev[s][3]}")
+                        del pending[s]
+                        del first_dev[s]
+                    pending[s] = (pending[s] & tags) if s in pending else set(tags)
                     first_dev.setdefault(s, (i, act, t, self.describe([c for c in cands if c[1] == ""][0][0], live, reader)))
                 state = chosen[0]
                 # raw content: the same token always has the same raw content, different tokens different content
@@ -389,10 +427,14 @@ class Run:  # pylint: disable=too-many-instance-attributes
                         continue
                     self.stats["raw_checked"] += 1
                     tok = state[1][q]
-                    aliases = [x for x in range(3) if W.same(W.canon(self.values[q][x]), W.canon(self.values[q][tok]))]
+                    aliases = [x for x in range(3) if W.same(self.cv[q][x], self.cv[q][tok])]
                     seen = self.raw_seen[q]
                     known = [seen[x] for x in aliases if x in seen]
                     if known and rv not in known and not self._raw_equiv(rv, known):
+                        if q in pending and pending[q] & {"ForgetsPersist", "WrittenButUnreadable"}:
+                            # the file content did change: the value is written where geoh5py's own reader does not find it
+                            pending[q] = {"WrittenButUnreadable"}
+                            continue
                         self.bad(f"raw-differs:{self.pair(q)}",
                                  f"step {i}: a geoh5py reader sees token {tok} for {self.attrs[q]} but the raw content {W.short(rv, 80)} "
                                  f"is not the content stored for that value before ({W.short(known[0], 80)})")
@@ -406,20 +448,11 @@ class Run:  # pylint: disable=too-many-instance-attributes
                     for x in aliases:
                         seen.setdefault(x, rv)
                 else:
-                    # adaptive extension: one more assignment tells ForgetsPersist from PersistsBeforeStoring
-                    if i == len(steps) and extra < 3 and any(len(v) > 1 for v in pending.values()):
-                        amb = sorted(q for q, v in pending.items() if len(v) > 1)[0]
-                        if not state[2]:
-                            steps.append(("Open", 0, 0))
-                        nxt = [x for x in (1, 2, 0) if x != state[0][amb]
-                               and not W.same(W.canon(self.values[amb][x]), W.canon(self.values[amb][state[0][amb]]))]
-                        if nxt:
-                            steps.append(("Set", amb + 1, nxt[0]))
-                            extra += 1
-                            self.stats["extended"] += 1
                     continue
                 break
             for s, tags in pending.items():
+                if len(tags) > 1 and self.viol:
+                    continue  # ended early on another violation before the mechanism could be told apart: other behaviours do
                 step_i, act, t, what = first_dev[s]
                 tag = "|".join(sorted(tags))
                 self.bad(f"dev:{tag}:{self.pair(s)}",
